@@ -413,7 +413,9 @@ func validateRel(r *core.Run, evs []relEvent) []int {
 		}
 	}
 	if len(corrupted) > 0 {
+		relDumpOff = true
 		rej := validateRelRaw(r, corrupted)
+		relDumpOff = false
 		if len(rej) != len(corrupted) {
 			acc := map[int]bool{}
 			for i := range corrupted {
@@ -486,6 +488,8 @@ func corruptEvent(ev map[string]interface{}) (map[string]interface{}, bool) {
 	return nil, false
 }
 
+var relDumpOff bool
+
 func validateRelRaw(r *core.Run, evs []relEvent) []int {
 	var rejected []int
 	base := 0
@@ -496,7 +500,7 @@ func validateRelRaw(r *core.Run, evs []relEvent) []int {
 			b.WriteString(core.JSON(e.Ev))
 			b.WriteByte('\n')
 		}
-		if d := os.Getenv("VERIF_DUMP"); d != "" {
+		if d := os.Getenv("VERIF_DUMP"); d != "" && !relDumpOff {
 			_ = os.WriteFile(d, []byte(b.String()), 0644)
 		}
 		res := r.RunTLC(core.TLCOpts{Module: "RelTrace", Cfg: "RelTrace.cfg", Workers: 1, Timeout: 30 * time.Minute, KeepOut: true,
@@ -519,7 +523,7 @@ func validateRelRaw(r *core.Run, evs []relEvent) []int {
 			core.Fail("RelTrace rejected at an impossible line %d of %d", idx, len(rest))
 		}
 		rejected = append(rejected, base+idx)
-		if d := os.Getenv("VERIF_DUMP"); d != "" {
+		if d := os.Getenv("VERIF_DUMP"); d != "" && !relDumpOff {
 			_ = os.WriteFile(fmt.Sprintf("%s.rej%d", d, len(rejected)), []byte(core.JSON(rest[idx].Ev)), 0644)
 		}
 		base += idx + 1
